@@ -1316,11 +1316,36 @@ class Interp:
             fn = source.function(fr.qual)
         except source.AnchorMissing:
             return None, None
-        ls = source.loops(fn)
+        # loops that are spelled-out comprehensions (see _summarise_loop) need no invariant and are not counted: inserting or
+        # removing one does not move the anchors of the others
+        ls = [n for n in source.loops(fn) if not self._summarisable(n)]
         for i, n in enumerate(ls):
             if n is node:
                 return self.world.loop_spec(self, fr.qual, i), i
         return None, None
+
+    def _summarisable(self, st):
+        """syntactic part of _summarise_loop"""
+        if not isinstance(st, ast.For) or st.orelse:
+            return False
+        body = list(st.body)
+        n_assign = 0
+        while body and isinstance(body[0], ast.Assign) and len(body[0].targets) == 1 and isinstance(body[0].targets[0], ast.Name):
+            body.pop(0)
+            n_assign += 1
+        if n_assign > 1 or len(body) != 1:
+            return False
+        stmt = body[0]
+        inner = list(stmt.body) if (isinstance(stmt, ast.If) and not stmt.orelse) else [stmt]
+        is_if = isinstance(stmt, ast.If) and not stmt.orelse
+        if is_if and len(inner) == 1 and isinstance(inner[0], ast.Return):
+            return True
+        if is_if and inner and isinstance(inner[0], ast.Assign) and len(inner[0].targets) == 1 and isinstance(inner[0].targets[0], ast.Name) and (len(inner) == 1 or (len(inner) == 2 and isinstance(inner[1], ast.Break))):
+            return True
+        if len(inner) == 1 and isinstance(inner[0], ast.Expr) and isinstance(inner[0].value, ast.Call):
+            c = inner[0].value
+            return isinstance(c.func, ast.Attribute) and c.func.attr == "append" and isinstance(c.func.value, ast.Name) and len(c.args) == 1 and not c.keywords
+        return False
 
     def _assigned_names(self, body):
         names = []
@@ -1359,6 +1384,8 @@ class Interp:
             self.exec_block(st.orelse, env, mod)
             return
         # symbolic iteration: needs an invariant
+        if self._summarisable(st) and self._summarise_loop(st, env, mod):
+            return
         spec, ordinal = self._loop_spec(st)
         if spec is None:
             raise OutOfSubset(f"loop over symbolic collection without invariant ({self.frames[-1].qual} loop {ordinal})")
@@ -1390,6 +1417,86 @@ class Interp:
             if not self.feasible(z3.BoolVal(True)):
                 raise PathEnd("the loop cannot end without a break on this path")
             self.exec_block(st.orelse, env, mod)
+
+    def _summarise_loop(self, st, env, mod):
+        """Loops that are spelled-out comprehensions need no invariant: they are executed as the comprehension they stand for
+        (the body's tests must be pure, exactly as inside a comprehension - anything else leaves the subset).
+            for x in it: [v = e;] if c: return K            ==  if any(c for x in it): return K        (K independent of x, v)
+            for x in it: [v = e;] if c: flag = K [; break]  ==  if any(c for x in it): flag = K
+            for x in it: [v = e;] [if c:] acc.append(r)     ==  acc = [r for x in it if c]             (acc == [] before the loop)
+        """
+        if st.orelse:
+            return False
+        body = list(st.body)
+        assigns = []
+        while body and isinstance(body[0], ast.Assign) and len(body[0].targets) == 1 and isinstance(body[0].targets[0], ast.Name):
+            assigns.append(body.pop(0))
+        if len(assigns) > 1 or len(body) != 1:
+            return False
+        loopvars = {n.id for n in ast.walk(st.target) if isinstance(n, ast.Name)} | {a.targets[0].id for a in assigns}
+
+        def free_of_loopvars(e):
+            return not any(isinstance(n, ast.Name) and n.id in loopvars for n in ast.walk(e))
+
+        def with_walrus(cond):
+            """the test with the first use of the assigned local replaced by (local := its expression)"""
+            if not assigns:
+                return cond
+            name, expr = assigns[0].targets[0].id, assigns[0].value
+            done = [False]
+
+            class R(ast.NodeTransformer):
+                def visit_Name(self, n):
+                    if n.id == name and isinstance(n.ctx, ast.Load) and not done[0]:
+                        done[0] = True
+                        return ast.NamedExpr(target=ast.Name(id=name, ctx=ast.Store()), value=expr)
+                    return n
+
+            import copy
+
+            out = R().visit(copy.deepcopy(cond))
+            return out if done[0] else None
+
+        def quantified(cond):
+            gen = ast.GeneratorExp(elt=cond, generators=[ast.comprehension(target=st.target, iter=st.iter, ifs=[], is_async=0)])
+            call = ast.Call(func=ast.Name(id="any", ctx=ast.Load()), args=[gen], keywords=[])
+            return ast.fix_missing_locations(ast.copy_location(call, st))
+
+        stmt = body[0]
+        cond = None
+        if isinstance(stmt, ast.If) and not stmt.orelse:
+            cond = with_walrus(stmt.test)
+            if cond is None:
+                return False
+            inner = list(stmt.body)
+        else:
+            inner = [stmt]
+        # search loop / flag loop
+        if cond is not None and len(inner) == 1 and isinstance(inner[0], ast.Return) and (inner[0].value is None or free_of_loopvars(inner[0].value)):
+            if self.branch(self.truth(self.eval(quantified(cond), env, mod))):
+                raise _Return(None if inner[0].value is None else self.eval(inner[0].value, env, mod))
+            return True
+        if cond is not None and inner and isinstance(inner[0], ast.Assign) and len(inner[0].targets) == 1 and isinstance(inner[0].targets[0], ast.Name) and free_of_loopvars(inner[0].value) and inner[0].targets[0].id not in loopvars and (len(inner) == 1 or (len(inner) == 2 and isinstance(inner[1], ast.Break))):
+            if self.branch(self.truth(self.eval(quantified(cond), env, mod))):
+                self.assign(inner[0].targets[0], self.eval(inner[0].value, env, mod), env, mod)
+            return True
+        # collecting loop
+        if len(inner) == 1 and isinstance(inner[0], ast.Expr) and isinstance(inner[0].value, ast.Call):
+            c = inner[0].value
+            if isinstance(c.func, ast.Attribute) and c.func.attr == "append" and isinstance(c.func.value, ast.Name) and len(c.args) == 1 and not c.keywords and c.func.value.id not in loopvars:
+                acc = c.func.value.id
+                if not (env.has(acc) and isinstance(env.get(acc), list) and not env.get(acc)):
+                    return False
+                elt = c.args[0]
+                if cond is None and assigns:
+                    elt = with_walrus(elt)
+                    if elt is None:
+                        return False
+                comp = ast.ListComp(elt=elt, generators=[ast.comprehension(target=st.target, iter=st.iter, ifs=[cond] if cond is not None else [], is_async=0)])
+                comp = ast.fix_missing_locations(ast.copy_location(comp, st))
+                env.set_nonlocal(acc, self.eval(comp, env, mod))
+                return True
+        return False
 
     def st_While(self, st, env, mod):
         spec, ordinal = self._loop_spec(st)
